@@ -79,6 +79,19 @@ func NewEdActor(seed uint64, i int) *Actor {
 	return &Actor{Name: fmt.Sprintf("ed%d", i), Kind: "ed25519", Priv: p, Pub: pub, Addr: sdk.Address(pub.Address())}
 }
 
+// NewEdActorWithLastByte searches the deterministic key sequence for a key whose address ends in the given byte
+// (keys whose derived store prefixes end in 0xFF or 0x00 exist in any real validator population: 1 in 256).
+func NewEdActorWithLastByte(seed uint64, i int, last byte) *Actor {
+	for k := 0; k < 20000; k++ {
+		a := NewEdActor(seed, 1000000+i*100000+k)
+		if a.Addr[len(a.Addr)-1] == last {
+			a.Name = fmt.Sprintf("ed%d", i)
+			return a
+		}
+	}
+	return NewEdActor(seed, i)
+}
+
 func NewSecpActor(seed uint64, i int) *Actor {
 	tk := tmsecp.GenPrivKeySecp256k1(seedBytes(seed, "secp", i))
 	var p crypto.Secp256k1PrivateKey
